@@ -57,6 +57,26 @@ theorem maskPred_values_refused (s : St) (t : Dense) (lits : List (String × Str
   exact ⟨"MaskedValues: floating point types only", by simp [maskPred, h', throwErr, bind, Except.bind]⟩
 
 
+/-- decision logic (the former finding F86, now unguarded): **every** predicate refuses — with an error, before a
+    mask is made or a bit is written: the result carries no state — a tensor of an element type its type switch
+    has no comparison for: (in)equality, the order predicates and the range predicates on anything but the ordered
+    number types and strings (so bool, complex64, complex128, uintptr), by-values on anything but floats. No
+    element type falls through to "nothing marked, nil returned" any more. -/
+theorem maskPred_unsupported_refused (s : St) (t : Dense) (op : String) (lits : List (String × String))
+    (h : (predTypes op).contains t.dt = false) :
+    ∃ e, maskPred s t op lits = .error (.err e) := by
+  have h' : t.dt ∉ predTypes op := by simpa using h
+  by_cases hv : op = "values" ∧ t.dt ∉ floatTypes
+  · exact ⟨"MaskedValues: floating point types only", by simp [maskPred, hv, throwErr, bind, Except.bind]⟩
+  · exact ⟨"unsupportedDtype", by simp [maskPred, hv, h', throwErr, bind, Except.bind]⟩
+
+/-- … and conversely a supported element type is never refused for its type (`maskPred_uses_kernel` below gives
+    the result). Non-vacuity of the refusal: the former witness `mnew c64 3 C - ; mpred eq $0 soft #k2`, and a
+    bool tensor under `MaskedNotEqual`; an int16 tensor passes the test. -/
+example : (predTypes "eq").contains "c64" = false ∧ (predTypes "ne").contains "b" = false ∧
+    (predTypes "gt").contains "c128" = false ∧ (predTypes "eq").contains "i16" = true ∧
+    (predTypes "values").contains "f32" = true ∧ (predTypes "values").contains "i16" = false := by decide
+
 /-! ### from the kernel to the model's state: `maskPred` writes `predKernel` into the mask window -/
 
 theorem St.mset_ok {s s' : St} {w : Win} {i : Int} {v : Bool} (h : s.mset w i v = .ok s') :
